@@ -166,12 +166,24 @@ let print_events (start : world) (o : oracle) (evs : event list) =
       | EvNow t -> f := tick !f t
       | _ -> ()) evs
 
+exception Crashed
+let crash_at : int option ref = ref None
 let run_prog (p : 'a prog) (o : oracle) : 'a * event list =
   let start = !world in
-  let (((a, w'), o'), evs) = run p start { o with o_draws = !draws; o_shards = !shard_draws } in
-  world := w'; draws := o'.o_draws; shard_draws := o'.o_shards;
-  print_events start o evs;
-  (a, evs)
+  match !crash_at with
+  | Some n ->
+    crash_at := None;
+    let (((w', o'), evs), _) = run_crash p start { o with o_draws = !draws; o_shards = !shard_draws } (nat_of_int n) in
+    world := w'; draws := o'.o_draws; shard_draws := o'.o_shards;
+    print_events start o evs;
+    (* the process is dead: its descriptors are gone *)
+    world := { !world with w_fs = { !world.w_fs with fds = [] } };
+    raise Crashed
+  | None ->
+    let (((a, w'), o'), evs) = run p start { o with o_draws = !draws; o_shards = !shard_draws } in
+    world := w'; draws := o'.o_draws; shard_draws := o'.o_shards;
+    print_events start o evs;
+    (a, evs)
 
 let count_fds () = List.length !world.w_fs.fds
 
@@ -281,6 +293,8 @@ let run () =
                 | _ -> ())
            done
          | "snap" -> snapshot ()
+         | "sleep" -> ()
+         | "resetproc" -> step := (if Array.length f > 1 then int_of_string f.(1) else 0); stage_ctr := 0; world := { !world with w_fs = { !world.w_fs with fds = [] }; w_counter = N0; w_loads = [] }
          | "oracle" ->
            let o = ref (base_oracle ()) in
            for i = 1 to Array.length f - 1 do
@@ -293,6 +307,7 @@ let run () =
                 | "orders" -> o := { !o with o_orders = (if v = "" then [] else List.map (fun g -> if g = "" then [] else List.map (fun x -> cs (unesc x)) (String.split_on_char ',' g)) (String.split_on_char '|' v)) }
                 | "fresh" -> o := { !o with o_fresh = (if v = "" then [] else List.map cs (String.split_on_char ',' v)) }
                 | "fault" -> (match String.split_on_char ':' v with [n; e] -> o := { !o with o_fault = Some (nat_of_int (int_of_string n), errno_of_name e) } | _ -> ())
+                | "crash" -> crash_at := Some (int_of_string v)
                 | "start" -> world := { !world with w_fs = tick !world.w_fs (z_of_string v) }
                 | "gran" -> o := { !o with o_gran = z_of_string v }
                 | "atime" -> o := { !o with o_atime = (match v with "noatime" -> Noatime | "strict" -> Strict | _ -> Relatime) }
@@ -329,7 +344,7 @@ let run () =
            let bool_line = function Ok b -> Printf.sprintf "OkBool %d" (if b then 1 else 0) | Err e -> io_line e | Panic -> "Panic" in
            let mode666 = n_of_int (0o666 land (lnot !umask)) in
            let evs_all = ref [] in
-           let res_line =
+           let res_line = try (
              match kind with
              | "get" -> let (r, e) = run_prog (cache_get (cfg h) (key 3)) o in evs_all := e; file_line r
              | "roget" -> let (r, e) = run_prog (ro_get (fronts_r ()) (chk ()) (key 3)) o in evs_all := e; file_line r
@@ -397,7 +412,7 @@ let run () =
                let (r, e) = run_prog (f_temp_dir (n_of_int h) fr k) o in
                evs_all := e;
                (match r with Ok p -> "OkPath " ^ string_of_path p | Err e -> io_line e | Panic -> "Panic")
-             | k -> "BadOp " ^ k in
+             | k -> "BadOp " ^ k) with Crashed -> "Crashed" in
            Printf.printf "# step %d returned\n" !step;
            let fds_held = count_fds () in
            (match !held with
